@@ -132,8 +132,8 @@ __CPROVER_decreases((uint64_t)nv_max_evals + (2 * NV_LS_MAX_EVALS + 50000) - 2 *
 #define NV_LOOP_cgd_do_minimize_1 NV_SOLVER_LOOP()
 #define NV_CONTRACT_lbfgs_do_minimize NV_MINIMIZE_REQUIRES NV_MINIMIZE_ASSIGNS NV_MINIMIZE_ENSURES
 #define NV_LOOP_lbfgs_do_minimize_1 NV_SOLVER_LOOP()
-#define NV_LOOP_lbfgs_do_minimize_2 __CPROVER_assigns(j) __CPROVER_loop_invariant(j <= hsize) __CPROVER_decreases(hsize - j)
-#define NV_LOOP_lbfgs_do_minimize_3 __CPROVER_assigns(j) __CPROVER_loop_invariant(j <= hsize) __CPROVER_decreases(hsize - j)
+/* loops 2 and 3 of lbfgs_do_minimize (the two-loop recursion over erased vectors) are canonical counting loops: they get the engine's
+ * default contract (NV_AUTOLOOP: frame = the counter, counter between its entry value and the bound, variant = distance to the bound) */
 #define NV_CONTRACT_quasi_do_minimize NV_MINIMIZE_REQUIRES NV_MINIMIZE_ASSIGNS NV_MINIMIZE_ENSURES
 #define NV_LOOP_quasi_do_minimize_1 NV_SOLVER_LOOP(NV_COMMA first_iteration)
 
